@@ -1,12 +1,15 @@
 """
 C12 -- Constants are always compliant with their declared type.
 
-R1  acceptance table of Constant.__init__ over (type kind x value kind x range position), extracted as path
-    conditions (E5) and compared with the Specification on the complete abstract domain.
-R2  inclusive_value_range tables folded (E6) for every width / float format, compared exactly (Fractions).
+The constructors involved (the primitive types, the expression values, Constant) are *abstractly evaluated* from their own
+source over a finite family of representatives that covers every combination the Specification distinguishes:
+
+R1  acceptance table of Constant.__init__ over (type kind x value kind x position relative to the type's range, strings by
+    boundary code points); every rejection is an InvalidDefinitionError.
+R2  inclusive_value_range of every integer width and of the three float formats, compared exactly (Fractions); FloatType
+    accepts exactly the widths {16, 32, 64}.
 R3  the range guard is the closed interval (part of R1's domain: at-min / at-max positions are accepted).
-R4  value identity: the stored value is the initializer object itself or Rational(ord(<1 byte>)); no float(),
-    round(), int() conversion reaches `_value`.
+R4  value identity: the stored value is the initializer object itself or Rational(code point of the single character).
 """
 from __future__ import annotations
 
@@ -14,454 +17,184 @@ import ast
 from fractions import Fraction
 from typing import Any, Dict, List, Optional, Tuple
 
-from ..core import AnalysisError, ClassInfo, Ctx, calls_in, dotted, norm, unparse, walk_no_nested
-from ..decide import A, Path, f_eval, path_formula, paths_of, substitute, to_formula
-from ..fold import FoldKeyError, Folder, Unfoldable
+from ..absint import AObj, Raised, construct, ctor_hook, module_call_hook
+from ..core import AnalysisError, ClassInfo, Ctx, norm
+from ..fold import Folder, Sym, Unfoldable
+from .c05 import enum_hook
 
 ATTR = "_serializable._attribute"
 PRIM = "_serializable._primitive"
+EXPR = "_expression._primitive"
+SAT = "CastMode.SATURATED"
 
 
-# ------------------------------------------------------------------------------------------------ R2 tables
-def _value_range_hook(e: ast.expr, f: Folder) -> Any:
-    if isinstance(e, ast.Call):
-        name = dotted(e.func) or ""
-        if name.split(".")[-1] == "ValueRange":
-            kw = {k.arg: f.fold(k.value) for k in e.keywords}
-            pos = [f.fold(a) for a in e.args]
-            if pos and not kw and len(pos) == 2:
-                return (pos[0], pos[1])
-            if set(kw) == {"min", "max"} and not pos:
-                return (kw["min"], kw["max"])
-            raise Unfoldable("ValueRange call shape")
-    return NotImplemented
+def _hook(ctx: Ctx, mod: Any) -> Any:
+    log: List[Any] = []
+    return ctor_hook(ctx, module_call_hook(ctx, mod, [], log, results={"check_name": None}, record=["check_name"], base_hook=enum_hook(ctx, mod, None)))
 
 
-def _single_return(ctx: Ctx, fn: Any) -> ast.expr:
-    ps = [p for p in paths_of(fn.node) if p.kind == "return"]
-    other = [p for p in paths_of(fn.node) if p.kind != "return"]
-    if len(ps) != 1 or other or ps[0].value is None:
-        raise AnalysisError("%s: expected a single unconditional return" % fn.qualname)
-    return ps[0].value
+def _new(ctx: Ctx, cls: ClassInfo, *args: Any) -> Any:
+    """the abstract instance, or the name of the exception its constructor raises"""
+    try:
+        return construct(ctx, cls, *args, hook=_hook(ctx, cls.module))
+    except Raised as r:
+        return r.cls_name
+    except Unfoldable as ex:
+        raise AnalysisError("cannot evaluate the constructor of %s over abstract arguments: %s" % (cls.name, ex))
+
+
+def _get(ctx: Ctx, obj: Any, attr: str) -> Any:
+    try:
+        return Folder({"o": obj}, ctx.repo, obj._cls_.module, obj._cls_, _hook(ctx, obj._cls_.module)).fold(ast.parse("o." + attr, mode="eval").body)
+    except Raised as r:
+        return "raise " + r.cls_name
+    except Unfoldable as ex:
+        raise AnalysisError("cannot evaluate %s.%s: %s" % (obj._cls_.name, attr, ex))
+
+
+def _is_ide(ctx: Ctx, name: str) -> bool:
+    k = next((c for c in ctx.repo.all_classes().values() if c.name == name), None)
+    return k is not None and ctx.repo.is_subclass(k, "_error.InvalidDefinitionError")
 
 
 def rule_r2(ctx: Ctx) -> None:
-    repo = ctx.repo
-    ctx.rule(
-        "C12.R2",
-        "inclusive_value_range folds to (-2**(n-1), 2**(n-1)-1) for int n=2..64, (0, 2**n-1) for uint n=1..64, "
-        "+-(2-2**-p)*2**emax for float16/32/64; FloatType accepts exactly the keys {16,32,64}",
-        min_instances=3,
-    )
-    # signed
-    sc = ctx.cls(PRIM + ".SignedIntegerType")
-    fn = repo.lookup_method(sc, "inclusive_value_range")
-    if fn is None or fn.cls is not sc:
-        raise AnalysisError("SignedIntegerType.inclusive_value_range not found")
-    expr = _single_return(ctx, fn)
-    bad: List[Any] = []
-    for n in range(2, 65):
-        f = Folder({"self.bit_length": n, "self._bit_length": n}, repo, fn.module, sc, _value_range_hook)
-        try:
-            got = f.fold(expr)
-        except Unfoldable as ex:
-            raise AnalysisError("cannot fold %s: %s" % (fn.qualname, ex))
-        want = (Fraction(-(2 ** (n - 1))), Fraction(2 ** (n - 1) - 1))
-        ctx.count()
-        if tuple(map(Fraction, got)) != want or not all(isinstance(x, (int, Fraction)) and not isinstance(x, bool) for x in got):
-            bad.append({"n": n, "found": [str(x) for x in got], "expected": [str(x) for x in want]})
-    ctx.check(not bad, fn.short, norm(expr), "signed range table (63 widths) must equal two's complement limits", fn.where(), bad[:4])
-    ctx.sample({"rule": "C12.R2", "site": fn.short, "expr": norm(expr), "rows": 63, "e.g.": {"n=8": "(-128, 127)"}})
-
-    # unsigned
-    uc = ctx.cls(PRIM + ".UnsignedIntegerType")
-    fn = repo.lookup_method(uc, "inclusive_value_range")
-    if fn is None or fn.cls is not uc:
-        raise AnalysisError("UnsignedIntegerType.inclusive_value_range not found")
-    expr = _single_return(ctx, fn)
-    bad = []
-    for n in range(1, 65):
-        f = Folder({"self.bit_length": n, "self._bit_length": n}, repo, fn.module, uc, _value_range_hook)
-        try:
-            got = f.fold(expr)
-        except Unfoldable as ex:
-            raise AnalysisError("cannot fold %s: %s" % (fn.qualname, ex))
-        want = (Fraction(0), Fraction(2**n - 1))
-        ctx.count()
-        if tuple(map(Fraction, got)) != want:
-            bad.append({"n": n, "found": [str(x) for x in got], "expected": [str(x) for x in want]})
-    ctx.check(not bad, fn.short, norm(expr), "unsigned range table (64 widths) must equal (0, 2**n-1)", fn.where(), bad[:4])
-    # subclasses must not override the range (ByteType/UTF8Type inherit it)
-    for sub in repo.subclasses(uc, strict=True) + repo.subclasses(sc, strict=True):
+    ctx.rule("C12.R2", "inclusive_value_range is (-2**(n-1), 2**(n-1)-1) for int n=2..64, (0, 2**n-1) for uint n=1..64, +-(2-2**-p)*2**emax for float16/32/64; FloatType accepts exactly the widths {16,32,64}", min_instances=3)
+    sc, uc, fc = (ctx.cls(PRIM + "." + n) for n in ("SignedIntegerType", "UnsignedIntegerType", "FloatType"))
+    for c, lo_n, want_f in ((sc, 2, lambda n: (Fraction(-(2 ** (n - 1))), Fraction(2 ** (n - 1) - 1))), (uc, 1, lambda n: (Fraction(0), Fraction(2**n - 1)))):
+        bad = []
+        for n in range(lo_n, 65):
+            t = _new(ctx, c, n, SAT)
+            ctx.count()
+            if not isinstance(t, AObj):
+                bad.append({"n": n, "found": "constructor raised %s" % t})
+                continue
+            got = _get(ctx, t, "inclusive_value_range")
+            want = want_f(n)
+            if not (isinstance(got, tuple) and len(got) == 2 and all(isinstance(x, (int, Fraction)) and not isinstance(x, bool) for x in got) and tuple(map(Fraction, got)) == want):
+                bad.append({"n": n, "found": [str(x) for x in got] if isinstance(got, tuple) else str(got), "expected": [str(x) for x in want]})
+        fn = ctx.repo.lookup_method(c, "inclusive_value_range")
+        ctx.check(not bad, c.short + ".inclusive_value_range", "%d widths" % (65 - lo_n), "the range table must equal the two's complement / unsigned limits for every width", fn.where() if fn else c.module.relpath, bad[:4])
+    for sub in ctx.repo.subclasses(uc, strict=True) + ctx.repo.subclasses(sc, strict=True):
         if "inclusive_value_range" in sub.methods:
             ctx.fail(sub.short, "inclusive_value_range override", "an integer subclass overrides the range table", where=sub.module.relpath)
-
     # float
-    fc = ctx.cls(PRIM + ".FloatType")
-    init = fc.methods.get("__init__")
-    rng = fc.methods.get("inclusive_value_range")
-    if init is None or rng is None:
-        raise AnalysisError("FloatType.__init__/inclusive_value_range not found")
-    # locate the single store to the attribute returned (negated / plain) by inclusive_value_range
-    rexpr = _single_return(ctx, rng)
-    mag_attrs = sorted({dotted(n) for n in ast.walk(rexpr) if isinstance(n, ast.Attribute) and dotted(n) and dotted(n).startswith("self._")})  # type: ignore
-    if len(mag_attrs) != 1:
-        raise AnalysisError("FloatType.inclusive_value_range: expected exactly one instance attribute, got %s" % mag_attrs)
-    mag = mag_attrs[0]
-    stores = []
-    local_env: Dict[str, ast.AST] = {}
-    for st in walk_no_nested(init.node):
-        if isinstance(st, ast.Assign) and len(st.targets) == 1:
-            d = dotted(st.targets[0])
-            if d == mag:
-                stores.append(st)
-            elif isinstance(st.targets[0], ast.Name):
-                local_env[st.targets[0].id] = st.value
-    if len(stores) != 1:
-        raise AnalysisError("FloatType.__init__: expected one store to %s, got %d" % (mag, len(stores)))
-    mexpr = substitute(stores[0].value, local_env)
-    accepted: Dict[int, Fraction] = {}
-    for n in range(1, 65):
-        f = Folder({"self.bit_length": n, "self._bit_length": n, "bit_length": n}, repo, init.module, fc)
-        ctx.count()
-        try:
-            v = f.fold(mexpr)  # type: ignore
-        except FoldKeyError:
-            continue
-        except Unfoldable as ex:
-            raise AnalysisError("cannot fold FloatType magnitude: %s" % ex)
-        accepted[n] = v
     spec = {16: (10, 15), 32: (23, 127), 64: (52, 1023)}
     want_mag = {n: (2 - Fraction(1, 2**p)) * 2**emax for n, (p, emax) in spec.items()}
-    detail = []
+    accepted: Dict[int, Any] = {}
+    rejected: Dict[int, str] = {}
+    for n in range(1, 65):
+        t = _new(ctx, fc, n, SAT)
+        ctx.count()
+        if isinstance(t, AObj):
+            accepted[n] = _get(ctx, t, "inclusive_value_range")
+        else:
+            rejected[n] = t
+    detail: List[Any] = []
     if set(accepted) != set(want_mag):
         detail.append({"accepted_widths": sorted(accepted), "expected": sorted(want_mag)})
     for n in sorted(set(accepted) & set(want_mag)):
-        if not isinstance(accepted[n], (int, Fraction)) or Fraction(accepted[n]) != want_mag[n]:
-            detail.append({"n": n, "found": str(accepted[n]), "expected": str(want_mag[n])})
-    ctx.check(not detail, fc.short + ".__init__", norm(stores[0]), "float magnitude table must be the IEEE 754 largest finite values for exactly {16,32,64}", init.where(stores[0]), detail)
-    # the lookup failure must be translated to InvalidBitLengthError (⊂ InvalidDefinitionError)
-    translated = False
-    for st in walk_no_nested(init.node):
-        if isinstance(st, ast.Try) and any(s is stores[0] for b in [st.body] for s in ast.walk(ast.Module(body=b, type_ignores=[]))):
-            for h in st.handlers:
-                hn = dotted(h.type) if h.type is not None else None
-                if hn in ("KeyError", "LookupError", "Exception"):
-                    for r in ast.walk(ast.Module(body=h.body, type_ignores=[])):
-                        if isinstance(r, ast.Raise) and r.exc is not None:
-                            target = r.exc.func if isinstance(r.exc, ast.Call) else r.exc
-                            k = repo.resolve_expr(init.module, target, fc)
-                            if isinstance(k, ClassInfo) and repo.is_subclass(k, "_error.InvalidDefinitionError"):
-                                translated = True
-    ctx.check(translated, fc.short + ".__init__", "KeyError -> InvalidBitLengthError", "an unsupported float width must be rejected with an InvalidDefinitionError", init.where())
-    # the range is symmetric: (-m, +m)
-    for sign, m in ((+1, Fraction(7)),):
-        f = Folder({mag: m}, repo, rng.module, fc, _value_range_hook)
-        try:
-            got = f.fold(rexpr)
-        except Unfoldable as ex:
-            raise AnalysisError("cannot fold FloatType.inclusive_value_range: %s" % ex)
-        ctx.check(tuple(got) == (-m, m), rng.short, norm(rexpr), "float range must be (-magnitude, +magnitude)", rng.where(), {"found": [str(x) for x in got]})
-    ctx.sample({"rule": "C12.R2", "site": fc.short, "accepted_widths": sorted(accepted), "float16_max": str(accepted.get(16))})
+        got = accepted[n]
+        if not (isinstance(got, tuple) and len(got) == 2 and all(isinstance(x, (int, Fraction)) for x in got) and tuple(map(Fraction, got)) == (-want_mag[n], want_mag[n])):
+            detail.append({"n": n, "found": str(got), "expected": "+-" + str(want_mag[n])})
+    init = fc.methods.get("__init__")
+    where = init.where() if init else fc.module.relpath
+    ctx.check(not detail, fc.short, "float range table", "the float range must be +-(the IEEE 754 largest finite value) for exactly {16,32,64}", where, detail)
+    not_ide = sorted({v for v in rejected.values() if not _is_ide(ctx, v)})
+    ctx.check(not not_ide and bool(rejected), fc.short + ".__init__", "unsupported widths -> %s" % sorted(set(rejected.values())), "an unsupported float width must be rejected with an InvalidDefinitionError", where, not_ide)
+    ctx.sample({"rule": "C12.R2", "accepted_float_widths": sorted(accepted), "float16": str(accepted.get(16))})
 
 
 # ------------------------------------------------------------------------------------------------ R1 / R3 / R4
-TYPE_KINDS = ["BOOL", "UINT8", "UINT_OTHER", "SINT8", "SINT_OTHER", "FLOAT", "OTHER"]
-# one-character strings are represented by boundary code points (ASCII / Latin-1 / wider / lone surrogate)
 STR1_CODES = [0x00, 0x41, 0x7F, 0x80, 0xFF, 0x100, 0x7FF, 0x800, 0xD800, 0xFFFF, 0x10FFFF]
-VALUE_KINDS = ["BOOLEAN", "RAT_INT", "RAT_FRAC"] + ["STR1_%X" % c for c in STR1_CODES] + ["STR_EMPTY", "STR_MULTI", "NONPRIM"]
-STRING_KINDS = {k for k in VALUE_KINDS if k.startswith("STR")}
-POSITIONS = ["BELOW", "AT_MIN", "INSIDE", "AT_MAX", "ABOVE"]
-
-_TYPE_IS = {
-    "BooleanType": {"BOOL"},
-    "IntegerType": {"UINT8", "UINT_OTHER", "SINT8", "SINT_OTHER"},
-    "UnsignedIntegerType": {"UINT8", "UINT_OTHER"},
-    "SignedIntegerType": {"SINT8", "SINT_OTHER"},
-    "FloatType": {"FLOAT"},
-    "ArithmeticType": {"UINT8", "UINT_OTHER", "SINT8", "SINT_OTHER", "FLOAT"},
-    "PrimitiveType": {"BOOL", "UINT8", "UINT_OTHER", "SINT8", "SINT_OTHER", "FLOAT"},
-    "VoidType": set(),
-    "SerializableType": set(TYPE_KINDS),
-}
-_VALUE_IS = {
-    "Primitive": {"BOOLEAN", "RAT_INT", "RAT_FRAC"} | STRING_KINDS,
-    "Boolean": {"BOOLEAN"},
-    "Rational": {"RAT_INT", "RAT_FRAC"},
-    "String": set(STRING_KINDS),
-    "Any": set(VALUE_KINDS),
-    "Set": set(),
-    "Container": set(),
-}
-
-
-class _State:
-    def __init__(self, tk: str, vk: str, pos: str):
-        self.tk, self.vk, self.pos = tk, vk, pos
-        self.code = int(vk.split("_")[1], 16) if vk.startswith("STR1_") else None
-
-    @property
-    def chars(self) -> int:
-        return 1 if self.code is not None else (0 if self.vk == "STR_EMPTY" else 2)
-
-    @property
-    def encodable(self) -> bool:
-        return self.code is None or not (0xD800 <= self.code <= 0xDFFF)
-
-    @property
-    def utf8_len(self) -> int:
-        if self.code is None:
-            return 0 if self.vk == "STR_EMPTY" else 2
-        c = self.code
-        return 1 if c < 0x80 else 2 if c < 0x800 else 3 if c < 0x10000 else 4
 
 
 def rule_r1(ctx: Ctx) -> None:
     repo = ctx.repo
-    ctx.rule(
-        "C12.R1",
-        "Constant.__init__ accepts exactly (bool,Boolean), (integer, integer Rational in closed range), (uint8, 1-byte "
-        "String -> code point, in range), (float, Rational in closed range); every rejection is an InvalidDefinitionError",
-        min_instances=1,
-    )
+    ctx.rule("C12.R1", "Constant.__init__ accepts exactly (bool,Boolean), (integer, integer Rational in closed range), (uint8, 1-character ASCII String -> code point), (float, Rational in closed range); every rejection is an InvalidDefinitionError", min_instances=1)
+    ctx.rule("C12.R4", "the stored value is the initializer itself or Rational(code point of the single character) - never converted/rounded")
     cc = ctx.cls(ATTR + ".Constant")
     init = cc.methods.get("__init__")
     if init is None:
         raise AnalysisError("Constant.__init__ not found")
-    params = init.params
-    need_params = {"data_type", "value"}
-    if not need_params <= set(params):
-        raise AnalysisError("Constant.__init__ parameters changed: %s" % params)
-    paths = paths_of(init.node)
-    ctx.analysed["C12.R1.paths"] = len(paths)
+    P = lambda n: ctx.cls(PRIM + "." + n)  # noqa: E731
+    E = lambda n: ctx.cls(EXPR + "." + n)  # noqa: E731
+    types: Dict[str, Any] = {
+        "BOOL": _new(ctx, P("BooleanType")),
+        "UINT8": _new(ctx, P("UnsignedIntegerType"), 8, SAT),
+        "UINT_OTHER": _new(ctx, P("UnsignedIntegerType"), 16, SAT),
+        "SINT8": _new(ctx, P("SignedIntegerType"), 8, SAT),
+        "SINT_OTHER": _new(ctx, P("SignedIntegerType"), 16, SAT),
+        "FLOAT": _new(ctx, P("FloatType"), 16, SAT),
+        "OTHER": _new(ctx, ctx.cls("_serializable._void.VoidType"), 8),
+    }
+    for k, t in types.items():
+        if not isinstance(t, AObj):
+            raise AnalysisError("cannot build the abstract type %s: constructor raised %s" % (k, t))
+    ranges = {k: (_get(ctx, t, "inclusive_value_range") if k not in ("BOOL", "OTHER") else None) for k, t in types.items()}
 
-    converted_marker = "CONVERTED"
+    def rational(v: Any) -> Any:
+        return _new(ctx, E("Rational"), v)
 
-    def classify_is(e: ast.Call) -> Any:
-        """isinstance(X, K) -> ('T', kinds) / ('V', kinds) / constant bool"""
-        if len(e.args) != 2:
-            raise AnalysisError("isinstance arity")
-        x, k = e.args
-        klasses = k.elts if isinstance(k, ast.Tuple) else [k]
-        names = []
-        for kk in klasses:
-            r = repo.resolve_expr(init.module, kk, cc)
-            if not isinstance(r, ClassInfo):
-                raise AnalysisError("isinstance against unresolved class %s" % unparse(kk))
-            names.append(r)
-        xs = norm(x)
-        if xs in ("data_type", "self.data_type", "self._data_type"):
-            kinds: set = set()
-            for r in names:
-                if r.name not in _TYPE_IS:
-                    raise AnalysisError("type test against %s is outside the C12 abstraction" % r.name)
-                kinds |= _TYPE_IS[r.name]
-            return ("T", frozenset(kinds))
-        if xs == "value":
-            kinds = set()
-            for r in names:
-                if r.name not in _VALUE_IS:
-                    raise AnalysisError("value test against %s is outside the C12 abstraction" % r.name)
-                kinds |= _VALUE_IS[r.name]
-            return ("V", frozenset(kinds))
-        if isinstance(x, ast.Call):
-            c = repo.resolve_expr(init.module, x.func, cc)
-            if isinstance(c, ClassInfo):
-                return any(repo.is_subclass(c, r) for r in names)
-        raise AnalysisError("isinstance on %s is outside the C12 abstraction" % xs)
+    def values_for(tk: str) -> List[Tuple[str, str, Any]]:
+        """(value kind, position, abstract value)"""
+        out: List[Tuple[str, str, Any]] = [("BOOLEAN", "-", _new(ctx, E("Boolean"), True))]
+        lo, hi = ranges[tk] if ranges.get(tk) else (Fraction(0), Fraction(255))
+        for pos, v in (("BELOW", lo - 1), ("AT_MIN", lo), ("INSIDE", (lo + hi) // 2 if (lo + hi) % 2 == 0 else (lo + hi - 1) // 2), ("AT_MAX", hi), ("ABOVE", hi + 1)):
+            out.append(("RAT_INT", pos, rational(Fraction(v))))
+        for pos, v in (("BELOW", lo - Fraction(1, 2)), ("INSIDE", lo + Fraction(1, 2)), ("INSIDE", hi - Fraction(1, 2)), ("ABOVE", hi + Fraction(1, 2))):
+            out.append(("RAT_FRAC", pos, rational(v)))
+        for c in STR1_CODES:
+            out.append(("STR1_%X" % c, "-", _new(ctx, E("String"), chr(c))))
+        out.append(("STR_EMPTY", "-", _new(ctx, E("String"), "")))
+        out.append(("STR_MULTI", "-", _new(ctx, E("String"), "ab")))
+        out.append(("NONPRIM", "-", Sym(_isa_=frozenset({"Set", "Container", "Any"}), _kind_="Set")))
+        return out
 
-    def is_value_native(e: ast.expr) -> Optional[str]:
-        """the Fraction being range-checked: value.native_value, or the converted code point"""
-        s = norm(e)
-        if s == "value.native_value":
-            return "orig"
-        if isinstance(e, ast.Attribute) and e.attr == "native_value" and isinstance(e.value, ast.Call):
-            c = repo.resolve_expr(init.module, e.value.func, cc)
-            if isinstance(c, ClassInfo) and c.name == "Rational":
-                return "converted"
-        return None
-
-    def atomize(e: Any) -> Any:
-        if isinstance(e, tuple):
-            if e[0] == "except" and e[1].split(".")[-1] in ("UnicodeEncodeError", "UnicodeError", "ValueError"):
-                body = " ".join(norm(x) for x in e[3])
-                if "value.native_value.encode(" in body:
-                    return A("ENC_FAIL")  # the string cannot be encoded (lone surrogate)
-            raise AnalysisError("unexpected control marker %r in Constant.__init__" % (e[0],))
-        if isinstance(e, ast.Call) and dotted(e.func) == "isinstance":
-            r = classify_is(e)
-            if isinstance(r, bool):
-                return r
-            return A("IS:%s:%s" % (r[0], ",".join(sorted(r[1]))))
-        if isinstance(e, ast.Call) and isinstance(e.func, ast.Attribute) and e.func.attr == "is_integer" and norm(e.func.value) == "value":
-            return A("IS_INTEGER")
-        if isinstance(e, ast.Compare) and len(e.ops) == 1:
-            l, op, r = e.left, e.ops[0], e.comparators[0]
-            ls, rs = norm(l), norm(r)
-            # len(<utf8 bytes of the string>) ? 1
-            if ls.startswith("len(") and "encode(" in ls and isinstance(r, ast.Constant) and isinstance(r.value, int):
-                if "value.native_value.encode" not in ls:
-                    raise AnalysisError("length test on something else than the string's bytes: %s" % ls)
-                return A("LENB:%s:%d" % (type(op).__name__, r.value))
-            if ls == "len(value.native_value)" and isinstance(r, ast.Constant) and isinstance(r.value, int):
-                return A("LENC:%s:%d" % (type(op).__name__, r.value))
-            if ls in ("ord(value.native_value)", "ord(value.native_value.encode('utf8'))") and isinstance(r, ast.Constant) and isinstance(r.value, int):
-                return A("ORD:%s:%d" % (type(op).__name__, r.value))
-            if ls in ("data_type.bit_length", "self.data_type.bit_length") and isinstance(r, ast.Constant) and isinstance(r.value, int):
-                return A("BITLEN:%s:%d" % (type(op).__name__, r.value))
-            # range comparisons
-            for side, other, flip in ((l, r, False), (r, l, True)):
-                ss = norm(side)
-                if ss in ("data_type.inclusive_value_range.min", "data_type.inclusive_value_range.max"):
-                    which = ss.rsplit(".", 1)[1]
-                    if is_value_native(other) is None:
-                        raise AnalysisError("range bound compared with %s" % norm(other))
-                    opn = type(op).__name__
-                    if flip:  # value OP bound  ->  bound OP' value
-                        opn = {"Lt": "Gt", "LtE": "GtE", "Gt": "Lt", "GtE": "LtE", "Eq": "Eq", "NotEq": "NotEq"}[opn]
-                    return A("RNG:%s:%s:%s" % (which, opn, is_value_native(other)))
-        raise AnalysisError("condition outside the C12 abstraction: %s" % norm(e))
-
-    def interp(name: str, st: _State) -> bool:
-        parts = name.split(":")
-        if parts[0] == "IS":
-            kinds = set(parts[2].split(",")) if parts[2] else set()
-            return (st.tk if parts[1] == "T" else st.vk) in kinds
-        if parts[0] == "IS_INTEGER":
-            return st.vk == "RAT_INT"
-        if parts[0] == "ENC_FAIL":
-            return not st.encodable
-        if parts[0] in ("LENB", "LENC", "ORD"):
-            import operator as _op
-
-            if parts[0] == "ORD" and st.code is None:
-                return False  # ord() of a non-single-character string is never reached on a feasible path
-            lhs = st.utf8_len if parts[0] == "LENB" else st.chars if parts[0] == "LENC" else st.code
-            f = {"Eq": _op.eq, "NotEq": _op.ne, "Lt": _op.lt, "LtE": _op.le, "Gt": _op.gt, "GtE": _op.ge}.get(parts[1])
-            if f is None:
-                _bad(name)
-            return f(lhs, int(parts[2]))
-        if parts[0] == "BITLEN":
-            if int(parts[2]) != 8:
-                _bad(name)
-            is8 = st.tk in ("UINT8", "SINT8")
-            if parts[1] == "Eq":
-                return is8
-            if parts[1] == "NotEq":
-                return not is8
-            _bad(name)
-        if parts[0] == "RNG":
-            which, op = parts[1], parts[2]
-            # position of the value relative to bound `which`: cmp(bound, value)
-            order = POSITIONS.index(st.pos)
-            if len(parts) > 3 and parts[3] == "converted":
-                # the value is the code point of the character; the type (on accepting paths) is uint8: [0, 255]
-                c = st.code if st.code is not None else 0
-                order = 1 if c == 0 else 3 if c == 255 else 2 if c < 255 else 4
-            b = 1 if which == "min" else 3
-            # bound ? value
-            if op == "LtE":
-                return b <= order
-            if op == "Lt":
-                return b < order
-            if op == "GtE":
-                return b >= order
-            if op == "Gt":
-                return b > order
-            if op == "Eq":
-                return b == order
-            if op == "NotEq":
-                return b != order
-        _bad(name)
-        return False
-
-    def _bad(name: str) -> Any:
-        raise AnalysisError("atom %s has no interpretation in the C12 domain" % name)
-
-    # formulas per path
-    pf = []
-    for p in paths:
-        if p.kind not in ("raise", "fall", "return"):
-            raise AnalysisError("unexpected path kind %s in Constant.__init__" % p.kind)
-        pf.append((p, path_formula(p, atomize)))
-
-    def spec_accept(st: _State) -> bool:
-        in_range = st.pos in ("AT_MIN", "INSIDE", "AT_MAX")
-        if st.tk == "BOOL":
-            return st.vk == "BOOLEAN"
-        if st.tk in ("UINT8", "UINT_OTHER", "SINT8", "SINT_OTHER"):
-            if st.vk == "RAT_INT":
+    def spec_accept(tk: str, vk: str, pos: str) -> bool:
+        in_range = pos in ("AT_MIN", "INSIDE", "AT_MAX")
+        if tk == "BOOL":
+            return vk == "BOOLEAN"
+        if tk in ("UINT8", "UINT_OTHER", "SINT8", "SINT_OTHER"):
+            if vk == "RAT_INT":
                 return in_range
-            if st.code is not None and st.tk == "UINT8":
-                return st.code <= 0x7F  # exactly one ASCII character
+            if vk.startswith("STR1_") and tk == "UINT8":
+                return int(vk.split("_")[1], 16) <= 0x7F  # exactly one ASCII character
             return False
-        if st.tk == "FLOAT":
-            return st.vk in ("RAT_INT", "RAT_FRAC") and in_range
+        if tk == "FLOAT":
+            return vk in ("RAT_INT", "RAT_FRAC") and in_range
         return False
 
-    mismatches = []
-    stored_ok = True
-    stored_detail = []
-    exc_bad = []
+    mismatches, exc_bad, stored_bad = [], [], []
     n_states = 0
-    for tk in TYPE_KINDS:
-        for vk in VALUE_KINDS:
-            for pos in POSITIONS:
-                st = _State(tk, vk, pos)
-                n_states += 1
-                atoms_cache: Dict[str, bool] = {}
-
-                class V(dict):
-                    def __contains__(self, k: object) -> bool:
-                        return True
-
-                    def __getitem__(self, k: str) -> bool:
-                        if k not in atoms_cache:
-                            atoms_cache[k] = interp(k, st)
-                        return atoms_cache[k]
-
-                taken = [p for p, f in pf if f_eval(f, V())]
-                ctx.count()
-                if len(taken) != 1:
-                    raise AnalysisError("Constant.__init__: %d paths feasible for abstract state %s/%s/%s (extractor not deterministic)" % (len(taken), tk, vk, pos))
-                p = taken[0]
-                accepted = p.kind != "raise"
-                if accepted != spec_accept(st):
-                    mismatches.append({"type": tk, "value": vk, "range_position": pos, "found": "accept" if accepted else "reject", "expected": "accept" if spec_accept(st) else "reject"})
-                if not accepted:
-                    target = p.value.func if isinstance(p.value, ast.Call) else p.value
-                    k = repo.resolve_expr(init.module, target, cc) if target is not None else None
-                    if not (isinstance(k, ClassInfo) and repo.is_subclass(k, "_error.InvalidDefinitionError")):
-                        exc_bad.append({"state": [tk, vk, pos], "raises": unparse(p.value)})
-                else:
-                    sv = p.env.get("self._value")
-                    svs = norm(sv) if sv is not None else "<unset>"
-                    if vk.startswith("STR"):
-                        good = isinstance(sv, ast.Call) and (norm(sv).replace(" ", "").endswith("Rational(ord(value.native_value.encode('utf8')))") or norm(sv).replace(" ", "").endswith("Rational(ord(value.native_value))"))
-                    else:
-                        good = svs == "value"
-                    if not good:
-                        stored_ok = False
-                        stored_detail.append({"state": [tk, vk, pos], "stored": svs})
+    for tk, t in types.items():
+        for vk, pos, v in values_for(tk):
+            if not isinstance(v, (AObj, Sym)):
+                raise AnalysisError("cannot build the abstract value %s: constructor raised %s" % (vk, v))
+            n_states += 1
+            ctx.count()
+            c = _new(ctx, cc, t, "X", v)
+            accepted = isinstance(c, AObj)
+            want = spec_accept(tk, vk, pos)
+            if accepted != want:
+                mismatches.append({"type": tk, "value": vk, "range_position": pos, "found": "accept" if accepted else "reject (%s)" % c, "expected": "accept" if want else "reject"})
+                continue
+            if not accepted:
+                if not _is_ide(ctx, c):
+                    exc_bad.append({"state": [tk, vk, pos], "raises": c})
+                continue
+            stored = _get(ctx, c, "value")
+            if vk.startswith("STR1_"):
+                code = int(vk.split("_")[1], 16)
+                good = isinstance(stored, AObj) and stored._cls_.name == "Rational" and _get(ctx, stored, "native_value") == code
+            else:
+                good = stored is v
+            if not good:
+                stored_bad.append({"state": [tk, vk, pos], "stored": repr(stored)[:80]})
     ctx.analysed["C12.R1.abstract_states"] = n_states
-    ctx.check(not mismatches, init.short, "acceptance table", "acceptance must equal the Specification on all %d abstract states" % n_states, init.where(), mismatches[:6])
+    ctx.check(not mismatches, init.short, "acceptance table", "acceptance must equal the Specification on all %d abstract states" % n_states, init.where(), mismatches[:6], rule="C12.R1")
     ctx.check(not exc_bad, init.short, "rejection class", "every rejection must be an InvalidDefinitionError subclass", init.where(), exc_bad[:4], rule="C12.R1")
-    ctx.rule("C12.R4", "the stored value is the initializer itself or Rational(ord(<the single byte>)) - never converted/rounded")
-    ctx.check(stored_ok, init.short, "self._value provenance", "stored constant value must be the initializer object or the code point of the 1-byte string", init.where(), stored_detail[:4])
-    # no lossy conversion anywhere in the constructor or the accessor
-    lossy = []
-    for fn in (init, cc.methods.get("value")):
-        if fn is None:
-            raise AnalysisError("Constant.value accessor not found")
-        for c in calls_in(fn.node):
-            n = dotted(c.func)
-            if n in ("float", "round", "int", "math.floor", "math.ceil", "math.trunc"):
-                lossy.append("%s in %s" % (norm(c), fn.short))
-    ctx.check(not lossy, init.short, "no float()/round()/int()", "no lossy numeric conversion may touch a constant's value", init.where(), lossy)
-    acc = cc.methods.get("value")
-    rex = _single_return(ctx, acc)
-    ctx.check(norm(rex) == "self._value", acc.short, norm(rex), "Constant.value must return the stored value", acc.where())
-    ctx.sample({"rule": "C12.R1", "paths": len(paths), "abstract_states": n_states, "example": "UINT8 x STR1_7F -> accept, stored Rational(ord(bytes)); UINT8 x STR1_80 -> reject"})
+    ctx.check(not stored_bad, init.short, "self._value provenance", "the stored constant value must be the initializer object or the code point of the single character", init.where(), stored_bad[:4], rule="C12.R4")
+    ctx.sample({"rule": "C12.R1", "abstract_states": n_states, "example": "UINT8 x STR1_7F -> accept, stored Rational(0x7F); UINT8 x STR1_80 -> reject"})
 
 
 def run(ctx: Ctx) -> None:
